@@ -603,28 +603,53 @@ impl<'a> Gen<'a> {
         self.rng.pick(&["\"k\"", "'k'", "\"a b\"", "\"x-y\""]).to_string()
     }
 
+    /// `return` with 0, 1, 2 or 3 values
+    fn ret_list(&mut self, ind: usize) -> String {
+        let k = self.rng.below(4);
+        if k == 0 {
+            return "return".to_string();
+        }
+        let vals: Vec<String> = (0..k).map(|_| if self.ch(1, 2) { self.simple_expr() } else { self.expr(ind) }).collect();
+        format!("return {}", vals.join(", "))
+    }
+
+    /// anonymous functions in every shape: one line / several lines; empty body, a statement, a `return` with 0-3
+    /// values, statements followed by a `return`
     fn closure(&mut self, ind: usize) -> String {
         let saved = (self.vararg, self.in_loop);
         let va = self.ch(1, 4);
         self.vararg = va;
         self.in_loop = false;
-        let mut params: Vec<String> = (0..self.rng.below(3)).map(|_| self.name()).collect();
+        let mut params: Vec<String> = (0..self.rng.below(4)).map(|_| self.name()).collect();
         if va {
             params.push("...".to_string());
         }
-        let body = if self.ch(1, 2) {
-            format!("{}return {}{}", self.sp(), self.expr(ind + 4), self.sp())
-        } else {
-            let nb_ = 1 + self.rng.below(2);
+        let body = match self.rng.below(8) {
+            // one line
+            0 => " ".to_string(),
+            1 | 2 | 3 => {
+                let r = self.ret_list(ind + 4);
+                format!("{}{}{}", self.sp(), r, self.sp())
+            }
+            4 => format!(" {}({}) ", self.name(), self.args(ind + 4)),
+            // several lines
+            5 => {
+                let r = self.ret_list(ind + 4);
+                format!("\n{}{}\n{}", " ".repeat(ind + 4), r, " ".repeat(ind))
+            }
+            6 => format!("\n{}", " ".repeat(ind)),
+            _ => {
+                let nb_ = 1 + self.rng.below(2);
                 let b = self.block(ind + 4, nb_);
-            format!("\n{}{}", b, " ".repeat(ind))
+                format!("\n{}{}", b, " ".repeat(ind))
+            }
         };
         (self.vararg, self.in_loop) = saved;
         format!("function{}({}){}end", if self.messy > 0 && self.ch(1, 4) { " " } else { "" }, params.join(", "), body)
     }
 
     fn expr_inner(&mut self, ind: usize) -> String {
-        match self.rng.below(22) {
+        match self.rng.below(23) {
             0..=5 => self.simple_expr(),
             6 | 7 | 8 => {
                 let ops = ["+", "-", "*", "/", "//", "%", "^", "..", "==", "~=", "<", "<=", ">", ">=", "and", "or", "&", "|", "~", "<<", ">>"];
@@ -683,15 +708,18 @@ impl<'a> Gen<'a> {
                 s
             }
             16 | 17 | 18 => self.table(ind),
-            19 | 20 => self.closure(ind),
+            19 | 20 | 21 => self.closure(ind),
             _ => self.string_lit(),
         }
     }
 
     fn lvalue(&mut self) -> String {
-        match self.rng.below(4) {
+        match self.rng.below(7) {
             0 | 1 => self.name(),
             2 => format!("{}.{}", self.name(), self.rng.pick(FIELDS)),
+            3 => format!("{}.{}.{}", self.name(), self.rng.pick(FIELDS), self.rng.pick(FIELDS)),
+            4 => format!("{}[{}][{}]", self.name(), self.simple_expr(), self.number()),
+            5 => format!("({}).{}", self.name(), self.rng.pick(FIELDS)),
             _ => format!("{}[{}]", self.name(), self.simple_expr()),
         }
     }
@@ -714,29 +742,35 @@ impl<'a> Gen<'a> {
         let k = if deep { self.rng.below(8) } else { self.rng.below(20) };
         match k {
             0 | 1 | 2 => {
-                let n = 1 + self.rng.below(2);
+                let n = 1 + self.rng.below(3);
                 let names: Vec<String> = (0..n).map(|_| self.name()).collect();
-                let attr = if n == 1 && self.ch(1, 10) { " <const>" } else { "" };
+                let attr = if n == 1 && self.ch(1, 10) { *self.rng.pick(&[" <const>", " <close>"]) } else { "" };
                 if self.ch(1, 6) {
                     s += &format!("local{}{}{}", self.sp(), names.join(", "), semi(self));
                 } else {
-                    let vals: Vec<String> = (0..n).map(|_| self.expr(ind)).collect();
+                    let nv = if self.ch(1, 4) { 1 + self.rng.below(3) } else { n };
+                    let vals: Vec<String> = (0..nv).map(|_| self.expr(ind)).collect();
                     s += &format!("local{}{}{}{}={}{}{}", self.sp(), names.join(", "), attr, self.op(), self.op(), vals.join(", "), semi(self));
                 }
             }
             3 | 4 => {
-                let n = 1 + self.rng.below(2);
+                let n = 1 + self.rng.below(3);
                 let l: Vec<String> = (0..n).map(|_| self.lvalue()).collect();
                 let v: Vec<String> = (0..n).map(|_| self.expr(ind)).collect();
                 s += &format!("{}{}={}{}{}", l.join(", "), self.op(), self.op(), v.join(", "), semi(self));
             }
             5 | 6 | 7 => {
-                let f = match self.rng.below(3) {
+                let f = match self.rng.below(4) {
                     0 => self.name(),
                     1 => format!("{}.{}", self.name(), self.rng.pick(FIELDS)),
-                    _ => format!("{}:{}", self.name(), self.rng.pick(FIELDS)),
+                    2 => format!("{}:{}", self.name(), self.rng.pick(FIELDS)),
+                    _ => format!("({})", self.name()),
                 };
-                s += &format!("{}({}){}", f, self.args(ind), semi(self));
+                match self.rng.below(8) {
+                    0 => s += &format!("{} {}{}", f, self.string_lit(), semi(self)),
+                    1 => s += &format!("{}{}{}", f, self.table(ind), semi(self)),
+                    _ => s += &format!("{}({}){}", f, self.args(ind), semi(self)),
+                }
             }
             8 | 9 => {
                 let c = self.expr(ind);
@@ -769,7 +803,13 @@ impl<'a> Gen<'a> {
                 let nb_ = 1 + self.rng.below(2);
                 let b = self.block(ind + 4, nb_);
                 self.in_loop = saved;
-                s += &format!("for k, v in pairs({}) do\n{}{pad}end", self.name(), b);
+                let names = *self.rng.pick(&["k", "k, v", "k, v, w"]);
+                let iter = match self.rng.below(3) {
+                    0 => format!("pairs({})", self.name()),
+                    1 => format!("next, {}", self.name()),
+                    _ => format!("{}({}), {}, nil", self.name(), self.name(), self.name()),
+                };
+                s += &format!("for {} in {} do\n{}{pad}end", names, iter, b);
             }
             12 => {
                 let saved = self.in_loop;
@@ -840,10 +880,10 @@ impl<'a> Gen<'a> {
             s += &self.stat(ind);
             s += "\n";
         }
-        if self.ch(1, 6) {
+        if self.ch(1, 4) {
             let pad = " ".repeat(ind);
-            let e = self.expr(ind);
-            s += &format!("{pad}return {}\n", e);
+            let r = self.ret_list(ind);
+            s += &format!("{pad}{}\n", r);
         }
         s
     }
